@@ -1,7 +1,7 @@
 (* C18 -- Run statistics agree with the returned rows (one pipeline batch; additivity over
    batches is C06's stats_additive). *)
 From Coq Require Import String ZArith List Bool Arith.
-From SynRBL Require Import Base.Dict Model.Comp Model.Matcher Model.Pipeline Proofs.PipelineProofs Proofs.RowLocal Proofs.Balanced Proofs.RunLevel Proofs.StatsAdd Proofs.StatsBounds.
+From SynRBL Require Import Base.Dict Model.Comp Model.Matcher Model.Pipeline Proofs.PipelineProofs Proofs.RowLocal Proofs.Balanced Proofs.RunLevel Proofs.StatsAdd Proofs.StatsBounds Base.Strs Proofs.CompProofs Proofs.WaterFact.
 Import ListNotations.
 Open Scope string_scope.
 
@@ -27,6 +27,17 @@ Theorem C18_solved_counts_bound_attributed_rows : forall O db ban fuel,
   count_if (is_m M_RB) rows <= rb_solved st /\ count_if (is_m M_MCS) rows <= mcs_solved st.
 Proof. exact run_solved_counts_bound_attributed. Qed.
 
+(* the same without a hypothesis on the pipeline: the oracle fact follows (Proofs/WaterFact.v) from two facts about the composition
+   oracle that are C07 theorems for the real decompose (well-formed dictionaries; appended water adds n x {H:2, O:1}) *)
+Theorem C18_solved_counts_bound_from_composition_facts : forall O db ban fuel,
+  (forall s, nodupk (decomp O s) /\ wf (decomp O s) /\ pos (decomp O s)) ->
+  (forall p n k, getd (decomp O (p ++ repeat_str ".O" n)) k = (getd (decomp O p) k + Z.of_nat n * water k)%Z) ->
+  forall t tmsg ins rows st, run O db ban fuel t tmsg ins = Done (rows, st) ->
+  count_if (is_m M_RB) rows <= rb_solved st /\ count_if (is_m M_MCS) rows <= mcs_solved st.
+Proof.
+  intros O db ban fuel A B. exact (run_solved_counts_bound_attributed O db ban fuel (water_never_balances O A B)).
+Qed.
+
 (* and the counters are a function of the input list, additive over any partition into batches (see Props/C06) *)
 Theorem C18_statistics_are_a_function_of_the_input : forall O db ban fuel t tmsg ins rows st,
   run O db ban fuel t tmsg ins = Done (rows, st) -> st = stats_fun O db ban fuel t ins.
@@ -34,4 +45,5 @@ Proof. exact run_stats_are_a_function. Qed.
 
 Print Assumptions C18_stats_agree.
 Print Assumptions C18_solved_counts_bound_attributed_rows.
+Print Assumptions C18_solved_counts_bound_from_composition_facts.
 Print Assumptions C18_statistics_are_a_function_of_the_input.
